@@ -24,7 +24,7 @@ var objStates = []string{"controlled", "co-owned", "foreign", "absent"}
 
 // extraStates: shapes that take a different path through the teardown code; used in dedicated
 // scenarios (controlled, but without the cache label and held by a foreign finalizer).
-var extraStates = []string{"controlled-unlabelled-held"}
+var extraStates = []string{"controlled-unlabelled-held", "sole-plain-owner"}
 
 // Scenario is one closed teardown system.
 type Scenario struct {
@@ -134,6 +134,10 @@ func (s *sys) create(i int, st string) {
 	o.SetLabels(map[string]string{"package-operator.run/cache": "True"})
 	var ents []map[string]any
 	switch st {
+	case "sole-plain-owner":
+		// the torn-down owner is the object's only owner, but not its controller (its controller
+		// flag was taken away, or the revision that took the object over was orphan-deleted)
+		ents = []map[string]any{entry(s.self, false)}
 	case "controlled-unlabelled-held":
 		ents = []map[string]any{entry(s.self, true)}
 		o.SetLabels(nil)
@@ -157,7 +161,9 @@ func (s *sys) thirdParty(action string) {
 	case "nothing":
 	case "reown-to-x":
 		if w.S.Objs[k] != nil {
-			_ = w.Edit(k, func(c map[string]any) { ownerEntries(s.sc.Anno, []map[string]any{entry(s.self, false), entry(s.x, true)}, c) })
+			_ = w.Edit(k, func(c map[string]any) {
+				ownerEntries(s.sc.Anno, []map[string]any{entry(s.self, false), entry(s.x, true)}, c)
+			})
 		}
 	case "delete-recreate-unowned":
 		_ = w.S.Delete(k, kmodel.DeleteOpts{})
@@ -404,7 +410,7 @@ func run(o checks.Opts) *report.Report {
 	rep.Bounds["preemptions"] = bound
 	scs := scenarios(o.Quick())
 	rep.Bounds["scenarios"] = len(scs)
-	rep.Rule = "for every initial ownership state of the phase's objects (controlled / co-owned / foreign / absent per object, plus controlled without the cache label and held by a foreign finalizer), target object, owner strategy (native ObjectSet, annotation ObjectSetPhase) and orphan deletion: every interleaving, with <= 2 preemptions at API-call granularity, of one real teardown pass with up to two third-party actions (re-own to another controller, delete+re-create unowned / owned by another, modify spec, strip owners); monitors on every request of the pass; distinct = (survivors, pass error)"
+	rep.Rule = "for every initial ownership state of the phase's objects (controlled / co-owned / foreign / absent per object, plus controlled without the cache label and held by a foreign finalizer, and owned - as the only owner - but not controlled), target object, owner strategy (native ObjectSet, annotation ObjectSetPhase) and orphan deletion: every interleaving, with <= 2 preemptions at API-call granularity, of one real teardown pass with up to two third-party actions (re-own to another controller, delete+re-create unowned / owned by another, modify spec, strip owners); monitors on every request of the pass; distinct = (survivors, pass error)"
 	for i, sc := range scs {
 		if o.Shards > 1 && i%o.Shards != o.Shard {
 			continue
